@@ -21,12 +21,13 @@ struct W {
   std::vector<std::vector<int>> nolevels;             // [rg][col] -> 1: OPTIONAL column written with def_levels == NULL (all rows present); 2: NULL only for some of the batches whose rows are all present
   int opts = 0;               // writer options away from their defaults: bit0 write_statistics=false, bit1 write_page_index, bit2 write_bloom_filters, bit3 created_by set
   int level = 0;              // compression_level
+  int64_t rg_size = 0;        // row_group_size option (0 = default): a target after which the writer may start a new row group on its own
   std::vector<int> extra_nrg;                         // explicit new_row_group calls after group g (1) / also one more on the then-empty group (2)
 };
 inline CaseText ser(const W &w) {
   CaseText t;
   t.put_i("codec", w.codec); t.put_i("page_size", w.page_size); t.put_i("via_file", w.via_file); t.put_i("mode", w.mode); t.put_i("batch", w.batch); t.put_u("order", w.order);
-  t.put_i("opts", w.opts); t.put_i("level", w.level);
+  t.put_i("opts", w.opts); t.put_i("level", w.level); t.put_i("rg_size", w.rg_size);
   t.put_ints("extra_nrg", w.extra_nrg);
   for (size_t g = 0; g < w.parts.size(); g++) { t.put_ints("nolev" + std::to_string(g), w.nolevels[g]); for (size_t c = 0; c < w.parts[g].size(); c++) t.put_ints("part" + std::to_string(g) + "_" + std::to_string(c), w.parts[g][c]); }
   gf::putSpec(t, w.fs);
@@ -34,7 +35,7 @@ inline CaseText ser(const W &w) {
 }
 inline W de(const CaseText &t) {
   W w; w.codec = (int)t.get_i("codec"); w.page_size = t.get_i("page_size"); w.via_file = t.get_i("via_file"); w.mode = (int)t.get_i("mode"); w.batch = (int)t.get_i("batch"); w.order = (uint32_t)t.get_u("order");
-  w.opts = (int)t.get_i("opts", 0); w.level = (int)t.get_i("level", 0);
+  w.opts = (int)t.get_i("opts", 0); w.level = (int)t.get_i("level", 0); w.rg_size = t.get_i("rg_size", 0);
   w.extra_nrg = t.get_ints<int>("extra_nrg");
   w.fs = gf::getSpec(t);
   size_t nl = pw::leaves(w.fs.root).size();
@@ -62,6 +63,7 @@ inline rc::Gen<W> genW() {
     w.page_size = *rc::gen::element<int64_t>(64, 100, 256, 1024, 4096, 1 << 20);
     w.via_file = *rc::gen::arbitrary<bool>(); w.mode = *irange(0, 2); w.batch = *rc::gen::weightedOneOf<int>({{4, irange(1, 12)}, {1, irange(13, 400)}}); w.order = (uint32_t)*irange(1, 1 << 30);
     w.opts = *rc::gen::weightedOneOf<int>({{3, rc::gen::just(0)}, {2, irange(0, 15)}}); w.level = *rc::gen::element(0, 0, 1, 3, 9, 19, -1, 100);
+    w.rg_size = *rc::gen::weightedOneOf<int64_t>({{6, rc::gen::just<int64_t>(0)}, {1, rc::gen::element<int64_t>(1, 256, 4096, 65536)}});
     int nrg = *rc::gen::weightedOneOf<int>({{1, rc::gen::just(0)}, {4, rc::gen::just(1)}, {4, irange(2, 4)}});
     if (o.max_cols == 6 && *irange(0, 49) == 0) nrg = *irange(13, 17);   // around the Thrift short-form list limit of 15
     for (int g = 0; g < nrg; g++) {
@@ -105,6 +107,7 @@ inline void applyOptions(const W &w, carquet_writer_options_t &o) {
   if (w.opts & 2) o.write_page_index = true;
   if (w.opts & 4) o.write_bloom_filters = true;
   if (w.opts & 8) o.created_by = "verif writer history";
+  if (w.rg_size > 0) o.row_group_size = w.rg_size;
 }
 // does this write_batch call pass def_levels == NULL?  mode 1: always; mode 2: for about half of the batches whose rows are all
 // present (a caller that only materialises levels when a batch has a null)
